@@ -12,6 +12,7 @@ STUB_PATHS = {
     "seal_nonce": ("crate::classic::crypto_box::crypto_box_seal_nonce", "seal_nonce_stub"),
     "b2_finalize_any": ("crate::blake2b::blake2b_soft::State::finalize", "b2_finalize_any_stub"),
     "fmo": ("curve25519_dalek::scalar::Scalar::from_bytes_mod_order", "from_mod_order_stub"),
+    "fcanon": ("curve25519_dalek::scalar::Scalar::from_canonical_bytes", "from_canonical_stub"),
     "fwide": ("curve25519_dalek::scalar::Scalar::from_bytes_mod_order_wide", "from_wide_stub"),
     "decompress": ("curve25519_dalek::edwards::CompressedEdwardsY::decompress", "decompress_stub"),
     "small_order": ("curve25519_dalek::edwards::EdwardsPoint::is_small_order", "small_order_stub"),
@@ -50,4 +51,4 @@ def stub_names(stubs=("barrier", "fmt"), extra=()):
 
 MAC = ("mac_new", "mac_update", "mac_finalize")
 
-ED_VERIFY = ("fmo", "fwide", "decompress", "small_order", "dsm", "point_eq", "point_neg", "sha_update", "sha_finalize")
+ED_VERIFY = ("fmo", "fcanon", "fwide", "decompress", "small_order", "dsm", "point_eq", "point_neg", "sha_update", "sha_finalize")
